@@ -226,10 +226,11 @@ fn pp_actor<'a>(ty: &'a Type, recs: &'a BTreeSet<&'a str>) -> RcDoc<'a> {
     match ty.as_ref() {
         TypeInner::Service(_) => pp_ty(ty),
         TypeInner::Var(id) => {
+            // through `ident`, like every other use of a definition name (JavaScript keywords get a `_`)
             if recs.contains(&*id.clone()) {
-                str(id).append(".getType()")
+                ident(id).append(".getType()")
             } else {
-                str(id)
+                ident(id)
             }
         }
         TypeInner::Class(_, t) => pp_actor(t, recs),
